@@ -25,7 +25,11 @@ package llrp
 //        2 = default client, reader already at 1.1; 3 = default client, reader at 1.0.1 / max 1.1, SET_PROTOCOL_VERSION -> 1.1;
 //        4 = default client, reader answers the version query with ERROR_MESSAGE VersionUnsupported -> 1.0.1
 //   y <exp> <act> <hex|-> <mode>   the reply's payload is given verbatim (undecodable replies)
-//   h <step>...   one exchange history on one Client (see c12History): S:<k>:<exp>:<mode> start caller k;
+//   k <exp> <act> <code> <desc> <fe> <pe> <mode> <cut> <eof|reset|deadline>   the awaited reply does not arrive completely: the frame's
+//        header announces the whole payload, <cut> bytes of it are sent, then the connection ends (orderly close / TCP reset / the
+//        reader goes silent and the Client's read deadline passes). A fresh connection per request.
+//   h [F] <step>...   one exchange history on one Client (F: on a fresh connection) (see c12History): S:<k>:<exp>:<mode> start caller k;
+//        N:<k>:<typ> message k is sent with SendNoWait (nobody awaits an answer; the reader may answer it all the same: R …:k<k>:…);
 //        A:<k> caller k's context is cancelled (the request stays unanswered); R:<ver>:<typ>:<idspec>:<layout>:<code>:<desc>:<fe>:<pe>:<flags|->
 //        the reader sends a frame (idspec k<n> = the id of caller n's request, f<n> = an id no request ever carried,
 //        m<n> = the largest id used so far plus n, z0 = id 0, which only the session's warm-up exchange carried);
@@ -878,6 +882,7 @@ const c12Timed = "timeout - - - - same - - - - ok - -"
 // run one history; returns one answer per caller and whether anything timed out
 func (h *c12Hist) run(steps []string, timeout time.Duration) (answers []string, broken bool) {
 	callers := map[int]*c12Caller{}
+	nowait := map[int]uint32{} // SendNoWait messages: the id each went out with
 	order := []int{}
 	finished := func(c *c12Caller) bool {
 		select {
@@ -947,6 +952,40 @@ func (h *c12Hist) run(steps []string, timeout time.Duration) (answers []string, 
 			case <-t.C:
 				broken = true
 			}
+		case f[0] == "N" && len(f) == 3: // a fire-and-forget message; the peer notes the id it carries on the wire
+			k, e1 := strconv.Atoi(f[1])
+			typ, e2 := c12ParseU16(f[2])
+			if e1 != nil || e2 != nil || k < 0 || k > 250 || callers[k] != nil {
+				return bad("bad N step")
+			}
+			if _, dup := nowait[k]; dup {
+				return bad("bad N step")
+			}
+			msg, err := NewByteMessage(MessageType(typ), []byte{byte(k)})
+			if err != nil {
+				return bad("bad N step: " + err.Error())
+			}
+			ctx, cancel := context.WithTimeout(context.Background(), timeout)
+			err = h.client.SendNoWait(ctx, msg)
+			cancel()
+			if err != nil {
+				broken = true
+				break
+			}
+			t := time.NewTimer(timeout)
+			select {
+			case r := <-h.reqs:
+				t.Stop()
+				if r.k != k {
+					return bad("another message read")
+				}
+				nowait[k] = r.id
+				if r.id > h.lastID {
+					h.lastID = r.id
+				}
+			case <-t.C:
+				broken = true
+			}
 		case f[0] == "A" && len(f) == 2:
 			k, e1 := strconv.Atoi(f[1])
 			c := callers[k]
@@ -974,10 +1013,13 @@ func (h *c12Hist) run(steps []string, timeout time.Duration) (answers []string, 
 			var target *c12Caller
 			switch f[3][0] {
 			case 'k':
-				if target = callers[n]; target == nil {
-					return bad("R step names a caller that was not started")
+				if target = callers[n]; target != nil {
+					id = target.id
+				} else if nid, ok := nowait[n]; ok {
+					id = nid
+				} else {
+					return bad("R step names a message that was not sent")
 				}
-				id = target.id
 			case 'f':
 				id = 0x40000000 + uint32(n)
 			case 'm': // an id the Client has not used yet (it will, n requests from now)
@@ -1033,6 +1075,120 @@ func (h *c12Hist) run(steps []string, timeout time.Duration) (answers []string, 
 		answers = append(answers, a)
 	}
 	return answers, broken
+}
+
+// c12Cut: one exchange whose reply is cut inside its payload (see the header comment)
+func c12Cut(exp, act MessageType, payload []byte, mode string, cut int, end string) string {
+	in, before := c12Instance(exp, mode), c12Instance(exp, mode)
+	if in == nil || cut < 0 || cut > len(payload) {
+		return "error: bad request"
+	}
+	var cconn, pconn net.Conn
+	if end == "reset" {
+		ln, err := net.Listen("tcp", "127.0.0.1:0")
+		if err != nil {
+			return "error: " + err.Error()
+		}
+		defer ln.Close()
+		acc := make(chan net.Conn, 1)
+		go func() {
+			c, _ := ln.Accept()
+			acc <- c
+		}()
+		if cconn, err = net.Dial("tcp", ln.Addr().String()); err != nil {
+			return "error: " + err.Error()
+		}
+		if pconn = <-acc; pconn == nil {
+			return "error: accept failed"
+		}
+	} else {
+		cconn, pconn = net.Pipe()
+	}
+	opts := append(c12ClientOpts(c12Cfg), WithVersion(Version1_0_1))
+	if end == "deadline" {
+		opts = append(opts, WithTimeout(60*time.Millisecond))
+	}
+	client := NewClient(opts...)
+	peerDone, release := make(chan struct{}), make(chan struct{})
+	go func() {
+		defer close(peerDone)
+		ts := c12tlv(128, []byte{0, 0, 0, 0, 0, 0, 0, 1})
+		cae := c12tlv(256, []byte{0, 0})
+		if _, err := pconn.Write(c12frame(63, 0, c12tlv(246, append(ts, cae...)))); err != nil {
+			return
+		}
+		hdr := make([]byte, 10)
+		if _, err := io.ReadFull(pconn, hdr); err != nil {
+			return
+		}
+		total := uint32(hdr[2])<<24 | uint32(hdr[3])<<16 | uint32(hdr[4])<<8 | uint32(hdr[5])
+		id := uint32(hdr[6])<<24 | uint32(hdr[7])<<16 | uint32(hdr[8])<<8 | uint32(hdr[9])
+		if total > 10 {
+			if _, err := io.CopyN(io.Discard, pconn, int64(total-10)); err != nil {
+				return
+			}
+		}
+		ver := byte(1)
+		if v := c12VerOf(mode); v > 0 {
+			ver = byte(v - 1)
+		}
+		fr := c12frameV(ver, uint16(act), id, payload) // the header announces the whole payload
+		if _, err := pconn.Write(fr[:10+cut]); err != nil {
+			return
+		}
+		switch end {
+		case "eof":
+			_ = pconn.Close()
+		case "reset":
+			if tc, ok := pconn.(*net.TCPConn); ok {
+				_ = tc.SetLinger(0)
+			}
+			_ = pconn.Close()
+		default: // deadline: the reader goes silent and keeps the connection open
+			<-release
+		}
+	}()
+	connDone := make(chan struct{})
+	go func() {
+		defer close(connDone)
+		_ = client.Connect(cconn)
+	}()
+	defer func() {
+		close(release)
+		_ = client.Close()
+		_ = pconn.Close()
+		_ = cconn.Close()
+		for _, ch := range []chan struct{}{peerDone, connDone} {
+			select {
+			case <-ch:
+			case <-time.After(2 * time.Second):
+			}
+		}
+	}()
+	ctx, cancel := context.WithTimeout(context.Background(), c12RetryTimeout)
+	defer cancel()
+	var err error
+	panicked := false
+	finished := make(chan struct{})
+	go func() {
+		defer close(finished)
+		defer func() {
+			if r := recover(); r != nil {
+				panicked = true
+			}
+		}()
+		err = client.SendFor(ctx, c12Out{typ: c12ReqType(exp)}, in)
+	}()
+	select {
+	case <-finished:
+	case <-time.After(c12RetryTimeout + time.Second):
+		return "hung - - - - same - - - - ok - -"
+	}
+	a, _ := c12Answer(err, panicked, in, before)
+	if errors.Is(err, ErrClientClosed) {
+		a = "closed" + strings.TrimPrefix(a, "timeout")
+	}
+	return a
 }
 
 func c12ParseU16(s string) (uint16, error) {
@@ -1189,6 +1345,22 @@ func TestVerifC12(t *testing.T) {
 					s = c12NewSession()
 				}
 			}
+		case len(tok) == 10 && tok[0] == "k":
+			exp, e1 := c12ParseU16(tok[1])
+			act, e2 := c12ParseU16(tok[2])
+			code, e3 := c12ParseU16(tok[3])
+			d, f, p, e4 := c12ParseShape(tok[4], tok[5], tok[6])
+			cut, e5 := strconv.Atoi(tok[8])
+			if e1 != nil || e2 != nil || e3 != nil || e4 != nil || e5 != nil || tok[7] == "" || (tok[9] != "eof" && tok[9] != "reset" && tok[9] != "deadline") {
+				fmt.Fprintln(w, "error: bad request")
+				continue
+			}
+			payload, err := c12Payload(MessageType(exp), MessageType(act), code, d, f, p, tok[7][1:])
+			if err != nil {
+				fmt.Fprintln(w, "error: "+err.Error())
+				continue
+			}
+			fmt.Fprintln(w, c12Cut(MessageType(exp), MessageType(act), payload, tok[7], cut, tok[9])+" "+strconv.Itoa(len(payload)))
 		case len(tok) == 5 && tok[0] == "y":
 			exp, e1 := c12ParseU16(tok[1])
 			act, e2 := c12ParseU16(tok[2])
@@ -1228,14 +1400,22 @@ func TestVerifC12(t *testing.T) {
 				fmt.Fprintln(w, strings.TrimSuffix(strings.Repeat("skipped - - - - same - - - - ok - - | ", ncallers), " | "))
 				continue
 			}
+			steps := tok[1:]
+			if steps[0] == "F" { // on a fresh connection: the first messages of a connection get the first ids
+				steps = steps[1:]
+				if hs != nil {
+					hs.close()
+					hs = nil
+				}
+			}
 			if hs == nil {
 				hs = c12NewHist()
 			}
-			ans, broken := hs.run(tok[1:], c12Timeout)
+			ans, broken := hs.run(steps, c12Timeout)
 			if broken && nBroken < 2 {
 				hs.close()
 				hs = c12NewHist()
-				ans, broken = hs.run(tok[1:], c12RetryTimeout)
+				ans, broken = hs.run(steps, c12RetryTimeout)
 			}
 			fmt.Fprintln(w, strings.Join(ans, " | "))
 			if broken {
